@@ -144,7 +144,7 @@ func (s *tunnelServer) createStream(ctx context.Context, streamID int64, frame *
 	}
 	noFlowControl := frame.ProtocolRevision == tunnelpb.ProtocolRevision_REVISION_ZERO
 
-	if frame.MethodName[0] == '/' {
+	if len(frame.MethodName) > 0 && frame.MethodName[0] == '/' {
 		frame.MethodName = frame.MethodName[1:]
 	}
 	parts := strings.SplitN(frame.MethodName, "/", 2)
